@@ -49,7 +49,17 @@ fn complete_frame(
         FrameType::PathResponse => map(be_path_response_frame, Frame::PathResponse).parse(input),
         FrameType::HandshakeDone => Ok((input, Frame::HandshakeDone(HandshakeDoneFrame))),
         FrameType::NewToken => map(be_new_token_frame, Frame::NewToken).parse(input),
-        FrameType::Ack(ecn) => map(ack_frame_with_ecn(ecn), Frame::Ack).parse(input),
+        FrameType::Ack(ecn) => {
+            let (remain, frame) = ack_frame_with_ecn(ecn)(input)?;
+            // a range that reaches below packet number 0 is a FRAME_ENCODING_ERROR
+            if frame.smallest().is_none() {
+                return Err(nom::Err::Error(nom::error::make_error(
+                    input,
+                    nom::error::ErrorKind::Verify,
+                )));
+            }
+            Ok((remain, Frame::Ack(frame)))
+        }
         FrameType::ResetStream => {
             map(be_reset_stream_frame, |f| Frame::StreamCtl(f.into())).parse(input)
         }
